@@ -331,6 +331,8 @@ def merge_assemblies(asm_list):
     for asm in asm_list:
         for scffld in asm.scaffolds:
             new.add_scaffold(scffld)
+    # Each assembly is sorted, but one after the other they are not
+    new.smart_sort_scaffolds()
     return new
 
 
